@@ -178,6 +178,7 @@ def main(pid, tier, seed, cfg):
     proof_res = run.run_proofs()
     functions = []
     lemmas = []
+    assumed_lemmas = []
     universe = []
     n_obl = n_dis = 0
     solver_time = 0.0
@@ -203,6 +204,9 @@ def main(pid, tier, seed, cfg):
         if r["kind"] == "lemmas":
             for x in r["results"]:
                 if pid not in x.get("properties", []) and x.get("properties"):
+                    continue
+                if x["status"] == "assumed":
+                    assumed_lemmas.append("assumed axiom %s: %s (%s)" % (x["name"], x.get("statement"), x.get("note")))
                     continue
                 lemmas.append(x)
                 n_obl += 1
@@ -347,7 +351,7 @@ def main(pid, tier, seed, cfg):
     samples = []
     for b in bounded_res:
         samples.extend(b["samples"][:3])
-    trusted = [ASSUMPTIONS[a] for a in cfg.get("assumes", [])] + list(cfg.get("trusted", []))
+    trusted = [ASSUMPTIONS[a] for a in cfg.get("assumes", [])] + list(cfg.get("trusted", [])) + assumed_lemmas
     proof_block = dict(
         obligations=n_obl, discharged=n_dis,
         functions_under_contract=functions, lemmas=[dict(name=l["name"], status=l["status"], time_s=l.get("time_s")) for l in lemmas],
